@@ -1,9 +1,13 @@
 package checks
 
 import (
+	"strings"
 	"testing"
 
 	"pgregory.net/rapid"
+
+	"verif/evid"
+	"verif/vfs"
 
 	"verif/dbm"
 	"verif/gen"
@@ -40,7 +44,7 @@ func TestC03(t *testing.T) {
 	p := &dbm.Profile{
 		MinOps: 15, MaxOps: 200, DetPercent: 50,
 		W: map[string]int{"put": 26, "del": 10, "batch": 8, "bigbatch": 1, "compact": 6, "idle": 3,
-			"snap": 8, "snapget": 10, "snaprel": 4, "scan": 4, "iter": 5, "iterwalk": 8, "iterrel": 3, "get": 3},
+			"snap": 8, "snapget": 10, "snaprel": 4, "scan": 4, "iter": 5, "iterwalk": 8, "iterrel": 3, "get": 3, "churn": 1},
 	}
 	runDBM(t, "C03", p, func(c *dbm.Case, st *dbm.Stats) (bool, []string) {
 		var cl []string
@@ -75,7 +79,7 @@ func TestC07(t *testing.T) {
 		MinOps: 20, MaxOps: 260, DetPercent: 60, Files: true,
 		W: map[string]int{"put": 34, "del": 8, "batch": 8, "bigbatch": 2, "compact": 5, "reopen": 2, "idle": 6,
 			"iter": 5, "iterwalk": 6, "iterrel": 2, "snap": 1, "snaprel": 1,
-			"tropen": 1, "trcommit": 1, "trdiscard": 2},
+			"tropen": 1, "trcommit": 1, "trdiscard": 2, "churn": 2},
 		Tweak: func(t *rapid.T, o *gen.OptSpec) {
 			o.OpenFilesCap = rapid.SampledFrom([]int{1, 1, 2, 2, 8, 0}).Draw(t, "ofc7")
 		},
@@ -90,6 +94,9 @@ func TestC07(t *testing.T) {
 		}
 		if st.MaxVersionsBehindIter >= 20 {
 			cl = append(cl, "iterator>=20-versions-behind")
+		}
+		if st.MaxVersionsBehindIter > 256 {
+			cl = append(cl, "iterator>256-versions-behind")
 		}
 		return st.IterPinnedRemovals > 0 && st.FileChecks > 0, cl
 	})
@@ -114,7 +121,7 @@ func TestC11(t *testing.T) {
 // C20: the DB neither keeps nor exposes shared buffers across the API boundary.
 func TestC20(t *testing.T) {
 	p := &dbm.Profile{
-		MinOps: 10, MaxOps: 160, DetPercent: 50, Poison: true,
+		MinOps: 10, MaxOps: 160, DetPercent: 40, Poison: true, SlowFlushPercent: 40,
 		W: map[string]int{"put": 28, "del": 8, "batch": 10, "bigbatch": 1, "get": 16, "trget": 3, "compact": 3, "reopen": 1, "idle": 2,
 			"iter": 3, "iterwalk": 8, "iterrel": 2, "scan": 3, "tropen": 1, "trcommit": 1, "trdiscard": 1},
 	}
@@ -130,3 +137,63 @@ func TestC20(t *testing.T) {
 		return st.ScribbledTableGets > 1, cl
 	})
 }
+
+// faultResidue is the fault-injected variant shared by C07 and C11: the C08
+// workloads and fault plans, judged only on "no residue": once the injected
+// failures have stopped and background work has settled, storage holds nothing
+// but the live tables, one journal and the current manifest.
+func faultResidue(t *testing.T, prop string) {
+	if replayFile() != "" {
+		c := &ECase{}
+		if err := loadReplay(c); err != nil {
+			t.Fatal(err)
+		}
+		for i := 0; i < envInt("VERIF_REPLAY_RUNS", 5); i++ {
+			if _, err := runFaultsOpts(c, false, true); err != nil {
+				t.Fatalf("replay failed: %v", err)
+			}
+		}
+		return
+	}
+	rec := evid.New(prop)
+	defer rec.Flush()
+	rapid.Check(t, func(rt *rapid.T) {
+		c := drawECase(rt, excludedSet())
+		c.DamageBlk = 0
+		for i := range c.Faults {
+			// a file whose Remove fails stays in storage by definition (it is cleaned up at the
+			// next open, which is checked after the reopen); the settled-state clause is judged
+			// for all other failures
+			if c.Faults[i].Kind == vfs.OpRemove {
+				c.Faults[i].Kind = vfs.OpSync
+			}
+		}
+		saveJSON("VERIF_INFLIGHT", c)
+		st, err := runFaultsOpts(c, false, true)
+		if err != nil {
+			if !strings.Contains(err.Error(), "left behind") && !strings.Contains(err.Error(), "in storage") {
+				// content violations belong to C08; this variant only judges residue
+				rec.Case(evid.FP(c), false, "content-violation-left-to-C08")
+				return
+			}
+			reportFail(prop, c, err)
+			rt.Fatalf("%s violated: %v", prop, err)
+		}
+		nt := len(st.fired) > 0 && st.fileChecks > 0
+		var cl []string
+		if nt {
+			cl = append(cl, "file-set-checked-after-faults")
+		}
+		if st.hung {
+			cl = append(cl, "inconclusive-call-did-not-return")
+		}
+		rec.Case(evid.FP(c), nt, cl...)
+		if nt && rec.WantSample() {
+			rec.Sample(map[string]any{"faults": c.Faults, "fired": describeFired(st.fired), "ops": len(c.Ops)})
+		}
+	})
+}
+
+// TestC07F / TestC11F: fault-injected "no residue" variants (run by the drivers of C07 and C11).
+func TestC07F(t *testing.T) { faultResidue(t, "C07") }
+func TestC11F(t *testing.T) { faultResidue(t, "C11") }
